@@ -4,7 +4,7 @@ import GarbleVerif.Proofs.BitMain
 
 **Proved (core fragment, all widths, all inputs).** `Bit.bitExpr` / `Bit.bitStmts` / `Bit.bitStmt`
 (Model/BitSem.lean) follow `compile.rs` on Booleans and integers of every width — literals,
-variables, `!`, unary `-`, `+`, `-`, `<`, `>`, `<=`, `>=`, `==`, `!=`, `&`, `|`, `^` on Booleans, `&&`,
+variables, `!`, unary `-`, `+`, `-`, `*`, `/`, `%`, `<<`, `>>`, `<`, `>`, `<=`, `>=`, `==`, `!=`, `&`, `|`, `^` on Booleans, `&&`,
 `||`, `as` between all these types, `if`/`else` as expression and as statement, blocks, `let`,
 `let mut`, assignment to a variable — computing, for given inputs, the value every output wire
 carries, the abstract state of the panic record and the wires of every variable in scope (the
@@ -20,8 +20,8 @@ operation: C02 at program level for the fragment). Both directions together: the
 iff the source execution fails. `C01_core_defined`: the source semantics are never stuck on a
 program of the fragment (type soundness).
 
-**Explored (whole language).** Everything outside the fragment (`*`, `/`, `%`, shifts,
-bitwise operators on integers, aggregates, `match`, loops, functions, assignment through
+**Explored (whole language).** Everything outside the fragment (bitwise operators on integers,
+multiplication by a literal where the compiler adds repeatedly, aggregates, `match`, loops, functions, assignment through
 accessors) is compared on generated programs on every run: circuit output against `Src.evalStmts`,
 and — for programs of the fragment — against `Bit.bitStmts` as well, which ties the model of
 this theorem to the code.
